@@ -312,51 +312,53 @@ Lemma calc_none_0 :
 Proof. repeat split; reflexivity. Qed.
 
 (* calcDescriptorLength is the size of the body the tag selects, modulo 256 *)
+Ltac calc_case L :=
+  match goal with
+  | |- (if ?c then _ else _) = _ => destruct c;
+      [ match goal with
+        | |- fst (_ ?o) = _ => destruct o as [v|]; [cbn [osize]; rewrite L; reflexivity|reflexivity]
+        | |- _ ?o = _ => destruct o as [v|]; [exact (L v)|reflexivity]
+        end | ]
+  end.
+
 Lemma calc_descriptor_length_size d : calc_descriptor_length d = desc_size d mod 256.
 Proof.
   unfold calc_descriptor_length, desc_size. rewrite is_user_defined_spec. unfold_tags.
   destruct (spec_is_user_defined (Descriptor_Tag d)); [reflexivity|].
-  repeat match goal with
-  | |- (if ?c then _ else _) = _ => destruct c;
-      [ match goal with
-        | |- fst (_ ?o) = _ => destruct o as [v|]; [cbn [osize]|reflexivity]
-        | |- _ ?o = _ => destruct o as [v|]; [cbn [osize]|reflexivity]
-        end;
-        first [ apply calc_ac3_size | apply calc_avc_video_size | apply calc_component_size | apply calc_content_size
-              | apply calc_data_stream_alignment_size | apply calc_enhanced_ac3_size
-              | apply calc_extension_size | apply calc_iso639_size
-              | apply calc_local_time_offset_size | apply calc_maximum_bitrate_size | apply calc_network_name_size
-              | apply calc_parental_rating_size | apply calc_private_data_indicator_size | apply calc_private_data_specifier_size
-              | apply calc_registration_size | apply calc_service_size | apply calc_short_event_size
-              | apply calc_stream_identifier_size | apply calc_subtitling_size | apply calc_teletext_size
-              | apply calc_vbi_data_size | (rewrite calc_extended_event_size; reflexivity) ]
-      | ]
-  end.
-  destruct (Descriptor_Unknown d); [apply calc_unknown_size|reflexivity].
+  calc_case calc_ac3_size. calc_case calc_avc_video_size. calc_case calc_component_size. calc_case calc_content_size.
+  calc_case calc_data_stream_alignment_size. calc_case calc_enhanced_ac3_size. calc_case calc_extended_event_size.
+  calc_case calc_extension_size. calc_case calc_iso639_size. calc_case calc_local_time_offset_size.
+  calc_case calc_maximum_bitrate_size. calc_case calc_network_name_size. calc_case calc_parental_rating_size.
+  calc_case calc_private_data_indicator_size. calc_case calc_private_data_specifier_size. calc_case calc_registration_size.
+  calc_case calc_service_size. calc_case calc_short_event_size. calc_case calc_stream_identifier_size.
+  calc_case calc_subtitling_size. calc_case calc_teletext_size. calc_case calc_vbi_data_size. calc_case calc_teletext_size.
+  destruct (Descriptor_Unknown d) as [v|]; [exact (calc_unknown_size v)|reflexivity].
 Qed.
 
 (* the body writer emits 8 * desc_size bits whenever it returns *)
+Ltac body_case L :=
+  match goal with
+  | |- (if ?c then _ else _) = _ -> _ => destruct c;
+      [ match goal with
+        | |- res_map _ (dneed ?o) = _ -> _ => destruct o as [v|]; cbn [dneed res_map osize]; [|discriminate];
+             let H := fresh "H" in intros H; inversion H; subst; clear H; exact (L v)
+        end | ]
+  end.
+
 Lemma enc_descriptor_body_size d its : enc_descriptor_body d = Ok its -> bitlen its = 8 * desc_size d.
 Proof.
   unfold enc_descriptor_body, desc_size. rewrite is_user_defined_spec. unfold_tags.
   destruct (spec_is_user_defined (Descriptor_Tag d)).
   { intros H; inversion H; subst. bl. reflexivity. }
-  repeat match goal with
-  | |- (if ?c then _ else _) = _ -> _ => destruct c;
-      [ match goal with
-        | |- res_map _ (dneed ?o) = _ -> _ => destruct o as [v|]; cbn [dneed res_map osize]; [|discriminate];
-             intros H; inversion H; subst; clear H
-        | |- res_bind (dneed ?o) _ = _ -> _ => destruct o as [v|]; cbn [dneed res_bind osize]; [|discriminate]
-        end;
-        first [ apply bitlen_enc_ac3 | apply bitlen_enc_avc_video | apply bitlen_enc_component | apply bitlen_enc_content
-              | apply bitlen_enc_data_stream_alignment | apply bitlen_enc_enhanced_ac3 | apply bitlen_enc_extended_event
-              | apply bitlen_enc_extension | apply bitlen_enc_iso639 | apply bitlen_enc_local_time_offset
-              | apply bitlen_enc_maximum_bitrate | apply bitlen_enc_network_name | apply bitlen_enc_parental_rating
-              | apply bitlen_enc_private_data_indicator | apply bitlen_enc_private_data_specifier | apply bitlen_enc_registration
-              | apply bitlen_enc_service | apply bitlen_enc_short_event | apply bitlen_enc_stream_identifier
-              | apply bitlen_enc_subtitling | apply bitlen_enc_teletext | apply bitlen_enc_vbi_data ]
-      | ]
-  end.
+  body_case bitlen_enc_ac3. body_case bitlen_enc_avc_video. body_case bitlen_enc_component. body_case bitlen_enc_content.
+  body_case bitlen_enc_data_stream_alignment. body_case bitlen_enc_enhanced_ac3. body_case bitlen_enc_extended_event.
+  destruct (Descriptor_Tag d =? 127).
+  { destruct (Descriptor_Extension d) as [v|]; cbn [dneed res_bind osize]; [|discriminate]. apply bitlen_enc_extension. }
+  body_case bitlen_enc_iso639. body_case bitlen_enc_local_time_offset. body_case bitlen_enc_maximum_bitrate.
+  body_case bitlen_enc_network_name. body_case bitlen_enc_parental_rating. body_case bitlen_enc_private_data_indicator.
+  body_case bitlen_enc_private_data_specifier. body_case bitlen_enc_registration. body_case bitlen_enc_service.
+  body_case bitlen_enc_short_event. body_case bitlen_enc_stream_identifier. body_case bitlen_enc_subtitling.
+  body_case bitlen_enc_teletext. body_case bitlen_enc_vbi_data. body_case bitlen_enc_teletext.
   destruct (Descriptor_Unknown d) as [v|]; cbn [dneed res_map osize]; [|discriminate].
-  intros H; inversion H; subst. apply bitlen_enc_unknown.
+  intros H; inversion H; subst. exact (bitlen_enc_unknown v).
 Qed.
